@@ -83,6 +83,17 @@ def outcome_items(tier):
                                 case = {"g": g, "kinds": kinds, "pars": [k != "combine" and jobs > 1 for k in kinds], "jobs": jobs,
                                         "fails": fails, "git": gitstate != "none", "dirty": gitstate == "dirty"}
                                 out.append({"kind": "outcome", "case": case})
+    # several experiments in flight, mixed outcomes, exits reaped in one batch (deviation 1)
+    for g in ([[1, 2], [], []], [[1, 2, 3], [], [], []]):
+        n = len(g)
+        for r in range(1, n - 1 + 1):
+            for subset in itertools.combinations(range(1, n), r):
+                if len(subset) == n - 1:
+                    continue
+                for fk in (["exit", 3], ["signal", 9]):
+                    case = {"g": g, "kinds": ["group"] + ["exp"] * (n - 1), "pars": [False] + [True] * (n - 1), "jobs": n - 1,
+                            "fails": {str(i): fk for i in subset}, "git": True, "dirty": False}
+                    out.append({"kind": "outcome", "case": case, "bound": 1})
     return out
 
 
@@ -198,7 +209,7 @@ class _quiet:
 
 def run_item(item, tier):
     if item["kind"] == "outcome":
-        return rungrid.explore_case(item["case"], 0, [mon_rows], max_exec=5000)
+        return rungrid.explore_case(item["case"], item.get("bound", 0), [mon_rows], max_exec=20000)
     res = {"evals": 0, "sigs": set(), "violations": [], "counters": {}, "sample": None}
     found = {}
 
